@@ -117,6 +117,7 @@ type Checker interface {
 }
 
 type Interp struct {
+	Done   bool // set by a terminal macro (xdelist): the rest of the history is not interpreted
 	H      *sim.Hub
 	C      *Case
 	W      map[string]*WChain
@@ -347,13 +348,13 @@ func (it *Interp) Run() *pbt.Failure {
 	it.learn(post)
 	it.notify(&StepInfo{Idx: -1, Phase: "begin", Pre: pre, Post: post})
 	for i := range it.C.Ops {
-		if it.Failed() {
+		if it.Failed() || it.Done {
 			break
 		}
 		it.StepNo = i
 		it.step(i, &it.C.Ops[i])
 	}
-	if !it.Failed() {
+	if !it.Failed() && !it.Done {
 		it.StepNo = len(it.C.Ops)
 		it.endBlock(len(it.C.Ops), &Op{K: "block", T: 5}, false)
 	}
@@ -1040,6 +1041,45 @@ func (it *Interp) step(i int, op *Op) {
 			}
 			o := o
 			it.step(i, &o)
+		}
+
+	case "xdelist":
+		// terminal macro (C05 only; the models of the other checkers do not follow a changing token list): transfers of a
+		// token wait in the pool, governance installs a token list without that token on that chain (what the proposal
+		// handler does: SetTokenInfos), and six more blocks run, judged for panics / hangs only; nothing after it is interpreted
+		it.step(i, &Op{K: "burst", U: op.U, C: op.C, D: op.D, N: 2 + op.R, A: "100", F: "seq"})
+		if it.Failed() {
+			break
+		}
+		if op.N%2 == 1 { // variant: one of them sits in a batch, which an external time-out hands back later
+			it.step(i, &Op{K: "reqbatch", C: op.C, D: op.D})
+			it.step(i, &Op{K: "burst", U: op.U, C: op.C, D: op.D, N: 2, A: "100", F: "seq"})
+			if it.Failed() {
+				break
+			}
+		}
+		it.Stats["delist-pool"] += len(it.H.Pool(chain))
+		d := it.denom(op.D)
+		var kept []*mtypes.TokenInfo
+		for _, ti := range it.H.K.GetTokenInfos(it.H.Ctx()).TokenInfos {
+			if !(ti.ChainId == chain && ti.Denom == d) {
+				kept = append(kept, ti)
+			}
+		}
+		it.H.K.SetTokenInfos(it.H.Ctx(), &mtypes.TokenInfos{TokenInfos: kept})
+		it.Stats["op:delist"]++
+		it.Done = true
+		for b := 0; b < 6; b++ {
+			if err := it.H.End(); err != nil {
+				it.Fail("C05", blockerKey(err), "%v", err)
+				break
+			}
+			it.Height++
+			it.Now += 5
+			if err := it.H.Begin(it.Height, it.Now); err != nil {
+				it.Fail("C05", blockerKey(err), "%v", err)
+				break
+			}
 		}
 
 	case "xbyzdep":
